@@ -46,6 +46,8 @@ def gap(run, quick):
         ref = ref.reshape(modes.shape[:-1] + Rq.shape[:-1])
         tol = tol_for(arr0, L)
         calcs = [("exact", spherical.Wigner(L, mp_max=abs(s))), ("larger", spherical.Wigner(L + 2, mp_max=abs(s) + 1)), ("full", spherical.Wigner(L))]
+        if abs(s) >= 1:   # calculators whose own ell_min is above 0 (allowed up to |s|)
+            calcs += [("ell_min=|s|", spherical.Wigner(L + 1, ell_min=abs(s), mp_max=abs(s))), ("ell_min=1", spherical.Wigner(L, ell_min=1))]
         for cname, w in calcs:
             for horner in (True, False):
                 inp = {"s": s, "ell_max_modes": L, "lead": list(lead), "kind": kind, "calc": [w.ell_min, w.ell_max, w.mp_max], "horner": horner, "R": [list(R) for R in Rs]}
